@@ -7,8 +7,8 @@ package main
 // never at the symptom.
 
 import (
-	"github.com/xjslang/xjs/debug"
 	"fmt"
+	"github.com/xjslang/xjs/debug"
 	"math/rand"
 	"reflect"
 	"strings"
